@@ -1,0 +1,71 @@
+//go:build verif
+// +build verif
+
+package zset
+
+import "fmt"
+
+// VerifCheck walks the skip list (build tag "verif") and reports the first
+// structural inconsistency: level-0 order by (score, key), backward chain,
+// tail, length, Dict <=> list, span sums equal to ranks on every level, and
+// the header never being a member.
+func (ss *SortedSet) VerifCheck() error {
+	rank := map[*SortedSetNode]int64{}
+	var prev *SortedSetNode
+	n := int64(0)
+	for x := ss.header.level[0].forward; x != nil; x = x.level[0].forward {
+		n++
+		if x == ss.header {
+			return fmt.Errorf("header reachable as member")
+		}
+		rank[x] = n
+		if x.backward != prev {
+			return fmt.Errorf("backward pointer of %q wrong", x.key)
+		}
+		if prev != nil && !(prev.score < x.score || (prev.score == x.score && prev.key < x.key)) {
+			return fmt.Errorf("order violated between %q(%v) and %q(%v)", prev.key, prev.score, x.key, x.score)
+		}
+		if d, ok := ss.Dict[x.key]; !ok || d != x {
+			return fmt.Errorf("node %q not in Dict (or Dict holds another node)", x.key)
+		}
+		prev = x
+		if n > int64(len(ss.Dict))+1 {
+			return fmt.Errorf("level-0 chain longer than Dict (cycle?)")
+		}
+	}
+	if ss.tail != prev {
+		return fmt.Errorf("tail pointer wrong")
+	}
+	if n != ss.length {
+		return fmt.Errorf("length %d but %d nodes on level 0", ss.length, n)
+	}
+	if int64(len(ss.Dict)) != n {
+		return fmt.Errorf("Dict has %d entries, list %d", len(ss.Dict), n)
+	}
+	if ss.level < 1 || ss.level > SkipListMaxLevel {
+		return fmt.Errorf("level %d out of range", ss.level)
+	}
+	for i := 0; i < ss.level; i++ {
+		pos := int64(0)
+		x := ss.header
+		for x.level[i].forward != nil {
+			nx := x.level[i].forward
+			r, ok := rank[nx]
+			if !ok {
+				return fmt.Errorf("level %d reaches a node not on level 0", i)
+			}
+			if pos+x.level[i].span != r {
+				return fmt.Errorf("level %d span before %q: %d+%d != rank %d", i, nx.key, pos, x.level[i].span, r)
+			}
+			if len(nx.level) <= i {
+				return fmt.Errorf("node %q on level %d has only %d levels", nx.key, i, len(nx.level))
+			}
+			pos = r
+			x = nx
+		}
+	}
+	return nil
+}
+
+// VerifIsHeader reports whether n is the internal header node.
+func (ss *SortedSet) VerifIsHeader(n *SortedSetNode) bool { return n == ss.header }
